@@ -1,5 +1,6 @@
 import Driver.Common
 import Rpki.Model.CertDer
+import Rpki.Model.CmsDer
 /-! the canonical one-line rendering of a decoded certificate shared by the `certd` ops (C04, C01, C05);
 the harness prints the same line from the library's accessors (`harness/src/certd.rs`) -/
 namespace Driver.CertShow
@@ -39,5 +40,13 @@ def certLine (b : List Nat) : String :=
   match decodeCert b with
   | some d => showDecoded d
   | none => "err"
+
+/-- `cmsd <ty> <hex>`: typed decoding verdict, then the fields of the signed object -/
+def cmsLine (ty : String) (b : List Nat) : String :=
+  let typed := if (Rpki.CmsDer.decodeTyped ty b).isSome then "ok" else "err"
+  let so := match Rpki.CmsDer.decodeSigObj b with
+    | none => "err"
+    | some o => s!"ok {hexN o.contentType} {hexN o.content} {civilToEpoch o.signingTime} | {showDecoded o.cert}"
+  s!"{typed} {so}"
 
 end Driver.CertShow
